@@ -313,6 +313,21 @@ def constructs(n, acc=None):
     return acc
 
 
+def call_depth(n):
+    """nesting depth of calls and brackets; the library's backtracking parser needs ~5-8x more time per level
+    (depth 3: 0.07 s, 4: 1 s, 5: 4 s, 6: 30 s per formula), so the generators bound it"""
+    if not isinstance(n, tuple) or not n or n[0] in ('lit', 'ref'):
+        return 0
+    sub = 0
+    for c in n[1:]:
+        if isinstance(c, tuple):
+            if c and isinstance(c[0], tuple):
+                sub = max([sub] + [call_depth(x) for x in c])
+            else:
+                sub = max(sub, call_depth(c))
+    return sub + (1 if n[0] in ('if', 'ifs', 'iferror', 'fn', 'paren') else 0)
+
+
 def to_tuple(j):
     return tuple(to_tuple(x) for x in j) if isinstance(j, list) else j
 
@@ -681,20 +696,26 @@ def chain_name(path):
     return '>'.join(s if slot is None else f'{s}[{slot}]' for s, slot in path)
 
 
-def gen_chain_formulas(depth, fms, ctx_ids, start=0):
-    """[(text, ast)] for every chain of the depth x fail mode x context index (deterministic).  At depth 3 the wrappers
-    between the levels are operators only and 5 of 6 outer positions are operator positions."""
+def gen_chain_formulas(depth, fms, ctx_ids, start=0, cap=4):
+    """[(text, ast)] for every chain of the depth x fail mode x context index (deterministic).  The wrapper between the
+    levels is advanced until the call depth of the formula is <= cap (parser cost)."""
     out = []
     n = start
     for path in chains(depth):
         for fm in fms:
             for ci in ctx_ids(n):
-                g = Gen(fm, start=n)
                 if depth >= 3:
                     ci = HEAVY_CTX[ci % len(HEAVY_CTX)] if n % 12 == 5 else LIGHT_CTX[ci % len(LIGHT_CTX)]
-                # a function position outside and a function wrapper between the levels are not combined (parser cost)
-                e = build(path, 'v', g, mid=n, light=depth >= 3 or (depth == 2 and ci % len(CONTEXTS) in HEAVY_CTX))
-                ast = CONTEXTS[ci % len(CONTEXTS)][1](e, g)
+                ci %= len(CONTEXTS)
+                for k in range(9):
+                    g = Gen(fm, start=n)
+                    if k < 8:
+                        e = build(path, 'v', g, mid=n + k, light=depth >= 3 or (depth == 2 and ci in HEAVY_CTX))
+                        ast = CONTEXTS[ci][1](e, g)
+                    else:
+                        ast = build(path, 'v', g, mid=0, light=True)        # no wrapper, bare position
+                    if call_depth(ast) <= cap:
+                        break
                 out.append((render(ast, SEPS[n % len(SEPS)]), ast))
                 n += 1
     return out
@@ -721,13 +742,15 @@ def gen_random_tree(rng, depth, role, g):
     return mk(shape, fills)
 
 
-def gen_random_formulas(rng, count):
+def gen_random_formulas(rng, count, cap=4):
+    """rejection sampling of random trees whose call depth is <= cap"""
     out = []
-    for n in range(count):
+    while len(out) < count:
         g = Gen(0, start=rng.randrange(4))
         e = gen_random_tree(rng, 3, 'v', g)
         ast = CONTEXTS[rng.choice(HEAVY_CTX) if rng.random() < 0.2 else rng.choice(LIGHT_CTX)][1](e, g)
-        out.append((render(ast, rng.choice(SEPS)), ast))
+        if call_depth(ast) <= cap and constructs(ast):
+            out.append((render(ast, rng.choice(SEPS)), ast))
     return out
 
 
@@ -1444,7 +1467,7 @@ def run(tier='quick', seed=0):
         # every ninth chain (rotating with the seed), the fail mode rotating with the chain index
         d3 = [d3all[4 * i + (i + seed) % 4] for i in range(len(d3all) // 4) if (i + seed) % 9 == 0]
     chain_sets = {1: dedupe(d1), 2: dedupe(d2), 3: dedupe(d3)}
-    rnd = dedupe(gen_random_formulas(rng, 500 if thorough else 50))
+    rnd = dedupe(gen_random_formulas(rng, 500 if thorough else 50) + (gen_random_formulas(rng, 40, cap=5) if thorough else []))
     nest_assigns = truth_assignments(rng, 3 if thorough else 1)
     # ---- jobs for one pool
     jobs = []
@@ -1511,7 +1534,7 @@ def run(tier='quick', seed=0):
         bound=f'6 construct shapes (IF/3, IF/2, IFS 1 pair, IFS 2 pairs, IFS 2 pairs + TRUE default, IFERROR); every chain of nesting depth 1 '
               f'(6), 2 (108) and 3 ({"all 1944, two fail modes each" if thorough else "216 of 1944, rotating with the seed, one fail mode each"}): each construct in each condition / '
               'branch / guarded / fallback slot of its parent, optionally wrapped in + * - / unary minus, brackets, SUM, AND, OR between the '
-              'levels (operators only at depth 3: the library parser needs ~5x time per function level); x fail modes {no failing leaf, untaken/taken branches 1/0 and =1/0 cell, error-value cells #N/A #DIV/0!, 1/variable and '
+              'levels (call depth incl. brackets kept <= 4: the library parser needs ~5-8x time per level); x fail modes {no failing leaf, untaken/taken branches 1/0 and =1/0 cell, error-value cells #N/A #DIV/0!, 1/variable and '
               f'1/zero-cell}} x {len(CONTEXTS)} outer positions (bare; operand of + - * / unary minus and of = <> < >= > without user brackets, '
               'left and right; argument of SUM MAX MIN AND OR ROUND; &; next to a second IF; inside IFERROR(12/E,-1)) - all positions at '
               f'depth 1, {"5" if thorough else "1"} per formula at depth 2, 1 at depth 3 (function positions for 1 formula in 12 there); separators , ; and line '
@@ -1527,7 +1550,7 @@ def run(tier='quick', seed=0):
     m = _merge(results['rnd'])
     checks.append(_mk_check(
         'C13.monitor.nest_random',
-        bound=f'{len(rnd)} random full trees of depth <= 3 (every slot nested with probability 1/2, random fail mode per leaf, random wrapper '
+        bound=f'{len(rnd)} random full trees of nesting depth <= 3 and call depth <= 4 (40 of them <= 5 in thorough; every slot nested with probability 1/2, random fail mode per leaf, random wrapper '
               f'between levels, random outer position and separator) x {len(nest_assigns)} states',
         rule='as nest_chains', exhaustive=False, evaluations=m['evaluations'], fails=_drop_supersets(m['failures']),
         t0=t0 - secs('rnd'), samples=m['samples']))
